@@ -486,7 +486,7 @@ func (g *G) action(depth int) (of.Action, string) {
 	case 15:
 		a := of.NewNXActionCTNAT()
 		var sets []string
-		// flag setters any number of times, each range setter at most once, any order
+		// flag setters and range setters in any order; a range setter sometimes twice (last value counts)
 		order := []int{0, 1, 2, 3, 4, 5, 6, 7, 8, 9, 10}
 		for i := len(order) - 1; i > 0; i-- {
 			j := g.r.Intn(i + 1)
@@ -495,6 +495,32 @@ func (g *G) action(depth int) (of.Action, string) {
 		for _, o := range order {
 			if g.r.Intn(3) == 0 {
 				continue
+			}
+			if o >= 5 {
+				// a range part may be set more than once (the last value counts, the part is there once)
+				// and the action may be sized between two setters
+				if g.r.Intn(4) == 0 {
+					q := uint16(g.r.Bits(16))
+					switch o {
+					case 5:
+						a.SetRangeIPv4Min(net.IP(g.r.Bytes(4)))
+					case 6:
+						a.SetRangeIPv4Max(net.IP(g.r.Bytes(4)))
+					case 7:
+						a.SetRangeIPv6Min(net.IP(g.r.Bytes(16)))
+					case 8:
+						a.SetRangeIPv6Max(net.IP(g.r.Bytes(16)))
+					case 9:
+						a.SetRangeProtoMin(&q)
+					case 10:
+						a.SetRangeProtoMax(&q)
+					}
+					g.use("history:nat-part-set-twice")
+				}
+				if g.r.Intn(4) == 0 {
+					a.Len()
+					g.use("history:nat-sized-between-setters")
+				}
 			}
 			switch o {
 			case 0:
